@@ -47,6 +47,8 @@ def gen_case(rnd, tier='quick'):
             t['start'], t['end'] = s_, s_ + td(days=rnd.randint(0, 9), hours=rnd.choice([0, 6]))
         if tasks and rnd.random() < 0.4:
             t['parent'] = rnd.randrange(len(tasks))
+        if rnd.random() < 0.08:
+            t['milestone'] = True      # the flag does not shorten a leaf: "every leaf lasts max(estimate - spent, 0)"
         tasks.append(t)
     links = []
     summary_links = rnd.random() < 0.5
@@ -54,6 +56,7 @@ def gen_case(rnd, tier='quick'):
     for i, t in enumerate(tasks):
         if t['parent'] is not None:
             ch[t['parent']].append(i)
+            tasks[t['parent']].pop('milestone', None)      # milestones are leaves (D2)
     shadow = [{'parent': t['parent']} for t in tasks]
     for _ in range(rnd.randint(0, 12)):
         if n < 2:
@@ -86,7 +89,7 @@ def gen_case(rnd, tier='quick'):
                 'in_other_wbs': rnd.random() < 0.5}]
         if rnd.random() < 0.3:
             ext.append({'id': rnd.randint(1, n), 'estimate': '30', 'succ': [rnd.randrange(n)], 'in_other_wbs': True, 'ext_pred': True})
-    return {'kind': 'cp', 'tasks': tasks, 'links': links, 'externals': ext}
+    return {'kind': 'cp', 'tasks': tasks, 'links': links, 'externals': ext, 'ext_first': rnd.random() < 0.5}
 
 
 def oracle(case):
@@ -133,11 +136,13 @@ def build(case):
     w = WBS()
     objs = []
     for t in case['tasks']:
-        objs.append(Task(t['id'], f"t{t['id']}", estimate=num(t['estimate']), spent=num(t['spent']), start=t.get('start'), end=t.get('end')))
+        objs.append(Task(t['id'], f"t{t['id']}", estimate=num(t['estimate']), spent=num(t['spent']), start=t.get('start'), end=t.get('end'),
+                         milestone=bool(t.get('milestone'))))
     for i, t in enumerate(case['tasks']):
         (w.roots if t['parent'] is None else objs[t['parent']].children).append(objs[i])
-    for s_, p_ in case['links']:
-        objs[s_].predecessors.append(objs[p_])
+    if not case.get('ext_first'):
+        for s_, p_ in case['links']:
+            objs[s_].predecessors.append(objs[p_])
     exts = []
     other = None
     for e in case.get('externals') or []:
@@ -154,6 +159,10 @@ def build(case):
         for i in e['succ']:
             objs[i].predecessors.append(x)
         exts.append(x)
+    if case.get('ext_first'):
+        # the outside predecessors were declared first: they stand in front of the members in the predecessor lists
+        for s_, p_ in case['links']:
+            objs[s_].predecessors.append(objs[p_])
     return w, objs, exts
 
 
